@@ -241,6 +241,9 @@ def simulate(L, m, T, q0, v0, h, nsteps, roots, momentum, P, witness):
                 springq.append((pa, int(T.jnt_dofadr[j]) + off, rbd.qnorm(np.array(m["qpos_spring"][pa:pa + 4]))))
         Es, KEs, PEs, Ps, Ls = [], [], [], [], []
         psc = lsc = 0.0
+        # angular-velocity dofs of ball / free joints (the quaternion coordinates RK4 treats at second order)
+        quatw = [int(T.jnt_dofadr[j]) + (3 if T.jnt_type[j] == rbd.FREE else 0) for j in range(T.njnt) if T.jnt_type[j] in (rbd.FREE, rbd.BALL)]
+        out["quat_rot_speed"] = 0.0
         for k in range(NCHECK + 1):
             if k:
                 d.step(per)
@@ -249,6 +252,8 @@ def simulate(L, m, T, q0, v0, h, nsteps, roots, momentum, P, witness):
             if not (np.isfinite(q).all() and np.isfinite(v).all()):
                 out["diverged"] = True
                 return out
+            for va in quatw:
+                out["quat_rot_speed"] = max(out["quat_rot_speed"], float(np.linalg.norm(v[va:va + 3])))
             for (pa, va, ps) in springq:
                 ang = np.linalg.norm(rbd.q2rotvec(rbd.qmul(rbd.qconj(ps), rbd.qnorm(q[pa:pa + 4]))))
                 if ang + 1.5 * np.linalg.norm(v[va:va + 3]) * (per * h) >= np.pi - 0.1:
@@ -297,6 +302,9 @@ def simulate(L, m, T, q0, v0, h, nsteps, roots, momentum, P, witness):
         d.free()
 
 
+SECOND_ORDER = (1.7, 2.4)      # observed-order window attributed to the known second-order RK4 behaviour on quaternion joints
+
+
 def order_verdict(drifts, floor):
     """'roundoff' | 'order-ok' | 'bad' and the observed order over two halvings"""
     d0, d1, d2 = drifts
@@ -326,6 +334,7 @@ def check_dynamic(L, m, T, P, q0, v0, grav, momentum, roots, Tspan, witness):
     P.note_max("local_frequency", w)
     verdicts = {}
     has_quat = bool(((m["jnt_type"] == E.mjJNT_BALL) | (m["jnt_type"] == E.mjJNT_FREE)).any())
+    rot_speed = 0.0
     for attempt in range(3):
         runs = []
         for k in range(3):
@@ -334,6 +343,7 @@ def check_dynamic(L, m, T, P, q0, v0, grav, momentum, roots, Tspan, witness):
                 P.count("skipped_dynamic_diverged")
                 return None
             runs.append(r)
+        rot_speed = max(r.get("quat_rot_speed", 0.0) for r in runs)
         if any(r.get("cutlocus") for r in runs):
             # the trajectory reaches the cut locus of a ball-joint spring, where the spring force is discontinuous: the study cannot
             # show any order (the error of the straddling step is O(h) with an erratic constant)
@@ -356,7 +366,7 @@ def check_dynamic(L, m, T, P, q0, v0, grav, momentum, roots, Tspan, witness):
         # behaviour, a smaller base step would show the same order
         def consistent(name):
             r0, r1, r2 = [max(x, 1e-300) for x in verdicts[name][2]]
-            return has_quat and 1.7 <= verdicts[name][1] <= 2.5 and abs(np.log2(r0 / r1) - np.log2(r1 / r2)) < 0.4 and r2 * max(r_[sk_[name]] for r_ in runs) > 1e3 * 1e-11 * max(r_[sk_[name]] for r_ in runs)
+            return has_quat and SECOND_ORDER[0] <= verdicts[name][1] <= SECOND_ORDER[1] and abs(np.log2(r0 / r1) - np.log2(r1 / r2)) < 0.4 and r2 * max(r_[sk_[name]] for r_ in runs) > 1e3 * 1e-11 * max(r_[sk_[name]] for r_ in runs)
         sk_ = {n_: s_ for n_, _, s_ in quantities}
         if all(consistent(nm) for nm in bad):
             P.count("dynamic_study_asymptotic_at_first_base_step")
@@ -367,7 +377,10 @@ def check_dynamic(L, m, T, P, q0, v0, grav, momentum, roots, Tspan, witness):
             if n0 * 4 > 120000:       # keep the cost bounded: shorten the span instead
                 n0 = 30000 // NCHECK * NCHECK
                 Tspan = n0 * h0
-    has_quat = bool(((m["jnt_type"] == E.mjJNT_BALL) | (m["jnt_type"] == E.mjJNT_FREE)).any())
+    # the known second-order mechanism needs a ball / free joint that actually ROTATES on this trajectory (angular speed seen at a
+    # checkpoint); a model that merely contains a quaternion joint does not qualify
+    rotating_quat = has_quat and rot_speed > 1e-6
+    P.count("dynamic_studies_with_rotating_ball_or_free_joint", int(rotating_quat))
     for name, (verdict, p, rel) in verdicts.items():
         if verdict == "bad" and p is not None and 0.5 <= p < 1.7:
             # the drift still vanishes with h, at the rate of a trajectory that crosses a non-smooth point of the potential
@@ -378,8 +391,10 @@ def check_dynamic(L, m, T, P, q0, v0, grav, momentum, roots, Tspan, witness):
             P.note_max("min_observed_order_neg_" + name, -p)
         if verdict == "bad":
             det = dict(witness, qpos=q0.tolist(), qvel=v0.tolist(), h_base=h0, steps_base=n0, relative_drift_h_h2_h4=[float(x) for x in rel],
-                       observed_order=p, gravity=list(map(float, grav)))
-            if has_quat and p is not None and 1.7 <= p < ORDER_MIN:
+                       observed_order=p, gravity=list(map(float, grav)), max_angular_speed_of_ball_or_free_joint=rot_speed)
+            # only an observed order of about 2 (window SECOND_ORDER) on a rotating quaternion joint is the known mechanism; the
+            # three invariants are separate explicit known-finding entries (no wildcard). Orders in (2.4, 3.46) are NOT attributed.
+            if rotating_quat and p is not None and SECOND_ORDER[0] <= p <= SECOND_ORDER[1] and name in ("energy", "linear-momentum", "angular-momentum"):
                 P.violation("rk4-converges-at-second-order-with-ball-or-free-joints:" + name, det)
             else:
                 P.violation("%s-drift-under-RK4-does-not-vanish-at-fourth-order%s" % (name, ":gravity" if np.any(grav) and name == "energy" else ""), det)
